@@ -6,35 +6,52 @@
 From Coq Require Import List String Bool.
 Require Import Py ListsGen AlgebraGen AlgebraSpec AlgebraSound.
 
-Theorem C05_compose : forall (D : Domain) (B : Type) (dt : term -> B -> Prop), DomainSpec B dt ->
-  forall c1 c2 keep sp od c st,
-  IoContract_compose_tactics c1 c2 keep sp od = inl (c, st) -> compose_obligation B dt c1 c2 c.
+(* wf is an invariant on terms (AlgebraSpec.v): the primitives are specified on well-formed
+   arguments only and keep it; the algebra keeps it too (wfc = both term lists well-formed) *)
+Theorem C05_compose : forall (D : Domain) (B : Type) (dt : term -> B -> Prop) (wf : term -> Prop),
+  DomainSpec B dt wf ->
+  forall c1 c2 keep sp od c st, wfc wf c1 -> wfc wf c2 ->
+  IoContract_compose_tactics c1 c2 keep sp od = inl (c, st) ->
+  wfc wf c /\ compose_obligation B dt c1 c2 c.
 Proof. exact @compose_sound. Qed.
 Print Assumptions C05_compose.
 
-Theorem C05_compose_simple : forall (D : Domain) (B : Type) (dt : term -> B -> Prop), DomainSpec B dt ->
-  forall c1 c2 keep sp c, IoContract_compose c1 c2 keep sp = inl c -> compose_obligation B dt c1 c2 c.
+Theorem C05_compose_simple : forall (D : Domain) (B : Type) (dt : term -> B -> Prop) (wf : term -> Prop),
+  DomainSpec B dt wf ->
+  forall c1 c2 keep sp c, wfc wf c1 -> wfc wf c2 ->
+  IoContract_compose c1 c2 keep sp = inl c ->
+  wfc wf c /\ compose_obligation B dt c1 c2 c.
 Proof. exact @compose_sound_simple. Qed.
 Print Assumptions C05_compose_simple.
 
-Theorem C05_quotient : forall (D : Domain) (B : Type) (dt : term -> B -> Prop), DomainSpec B dt ->
-  forall c c1 add sp od q st,
-  IoContract_quotient_tactics c c1 add sp od = inl (q, st) -> quotient_obligation B dt c c1 q.
+Theorem C05_quotient : forall (D : Domain) (B : Type) (dt : term -> B -> Prop) (wf : term -> Prop),
+  DomainSpec B dt wf ->
+  forall c c1 add sp od q st, wfc wf c -> wfc wf c1 ->
+  IoContract_quotient_tactics c c1 add sp od = inl (q, st) ->
+  wfc wf q /\ quotient_obligation B dt c c1 q.
 Proof. exact @quotient_sound. Qed.
 Print Assumptions C05_quotient.
 
-Theorem C05_quotient_simple : forall (D : Domain) (B : Type) (dt : term -> B -> Prop), DomainSpec B dt ->
-  forall c c1 add sp q, IoContract_quotient c c1 add sp = inl q -> quotient_obligation B dt c c1 q.
+Theorem C05_quotient_simple : forall (D : Domain) (B : Type) (dt : term -> B -> Prop) (wf : term -> Prop),
+  DomainSpec B dt wf ->
+  forall c c1 add sp q, wfc wf c -> wfc wf c1 ->
+  IoContract_quotient c c1 add sp = inl q ->
+  wfc wf q /\ quotient_obligation B dt c c1 q.
 Proof. exact @quotient_sound_simple. Qed.
 Print Assumptions C05_quotient_simple.
 
-Theorem C05_merge : forall (D : Domain) (B : Type) (dt : term -> B -> Prop), DomainSpec B dt ->
-  forall c1 c2 m, IoContract_merge c1 c2 = inl m -> merge_obligation B dt c1 c2 m.
+Theorem C05_merge : forall (D : Domain) (B : Type) (dt : term -> B -> Prop) (wf : term -> Prop),
+  DomainSpec B dt wf ->
+  forall c1 c2 m, wfc wf c1 -> wfc wf c2 ->
+  IoContract_merge c1 c2 = inl m ->
+  wfc wf m /\ merge_obligation B dt c1 c2 m.
 Proof. exact @merge_exact. Qed.
 Print Assumptions C05_merge.
 
-Theorem C05_refines : forall (D : Domain) (B : Type) (dt : term -> B -> Prop), DomainSpec B dt ->
-  forall c1 c2, IoContract_refines c1 c2 = inl true ->
+Theorem C05_refines : forall (D : Domain) (B : Type) (dt : term -> B -> Prop) (wf : term -> Prop),
+  DomainSpec B dt wf ->
+  forall c1 c2, wfc wf c1 -> wfc wf c2 ->
+  IoContract_refines c1 c2 = inl true ->
   (forall b, den B dt (c_a c2) b -> den B dt (c_a c1) b) /\
   (forall b, den B dt (c_a c2) b -> den B dt (c_g c1) b -> den B dt (c_g c2) b).
 Proof. exact @refines_sound. Qed.
